@@ -116,9 +116,11 @@ func modelOf(rec Record) *mRec {
 // ---- generators ----
 
 var c01Keys = []string{"a", "goos", "pkg", "k-1", "é", "ключ", "x/y", "a.b", "cpu", "b"}
-var c01Vals = []string{"1", "2", "linux", "darwin", "Intel(R) Core(TM) i7", "x  y", "v:1", "é世", "a\tb", "key: value", "Benchmark", "-", "0"}
-var c01Units = []string{"ns/op", "MB/s", "B/op", "allocs/op", "ns/ns", "MB*ns/op", "foo-ns", "xns", "custom", "ns", "sec/op", "B/s", "ns/MB", "é/op"}
-var c01NamePieces = []string{"X", "Y", "Foo", "/", "=", "-", "8", "16", "k", "v", "é", "世", "\xff", "sub", "_", ":", "*"}
+var c01Vals = []string{"1", "2", "linux", "darwin", "Intel(R) Core(TM) i7", "x  y", "v:1", "é世", "a\tb", "key: value", "Benchmark", "-", "0",
+	// trailing blanks and Unicode white space at either end belong to the value (only leading ASCII blanks/tabs separate it from the key)
+	"padded   ", "tab\t", "2.20GHz ", "\u00a0x", "x\u00a0", "x\u3000", "v\v", "\u2003both\u2003", "ctl\x1b[0m", "\x00"}
+var c01Units = []string{"ns/op", "MB/s", "B/op", "allocs/op", "ns/ns", "MB*ns/op", "foo-ns", "xns", "custom", "ns", "sec/op", "B/s", "ns/MB", "é/op", "u\x1f/op", "\x01ns"}
+var c01NamePieces = []string{"\x1b", "\x00", "X", "Y", "Foo", "/", "=", "-", "8", "16", "k", "v", "é", "世", "\xff", "sub", "_", ":", "*"}
 var c01MetaUnits = []string{"ns/op", "B/op", "allocs/op", "MB/s", "foo-ns", "custom"}
 var c01MetaKeys = []string{"better", "assume", "k", "é", "a:b"}
 var c01MetaVals = []string{"higher", "lower", "exact", "nothing", "", "x=y", "é"}
